@@ -160,15 +160,20 @@ def getN (numEndpoints : Nat) (ring : List (Sec × List Nat)) (v n : Nat) : Get 
 def simpleGetN (len v n : Nat) : Get :=
   if len ≤ n then .insufficient else .node (((v + n) % 2 ^ 64) % len)
 
+/-- the smallest element (0 for the empty list) -/
+def listMin : List Nat → Nat
+  | [] => 0
+  | [a] => a
+  | a :: b :: l => min a (listMin (b :: l))
+
 /-- Can `rf` replicas be placed zone-balanced on zones of the given sizes (numbers of distinct
     endpoints)?  With at most one zone the zone rule is off: `rf ≤ n`.  Otherwise the loop fills
     the zones evenly until the smallest zone (size `m`) is exhausted, after which every other
-    zone can take one more replica: `rf ≤ Σ min(size, m+1)`. -/
+    zone can take one more replica: `rf ≤ Σ min(size, m+1)`.
+    Theorem `C19_stuck_iff` (Props/C19.lean): exactly then the repaired loop answers replicas. -/
 def canBalance (sizes : List Nat) (rf : Nat) : Bool :=
   if sizes.length ≤ 1 then decide (rf ≤ sizes.sum)
-  else
-    let m := sizes.foldl min (sizes.headD 0)
-    decide (rf ≤ (sizes.map fun s => min s (m + 1)).sum)
+  else decide (rf ≤ (sizes.map fun s => min s (listMin sizes + 1)).sum)
 
 /-- where `GetN` starts for a series with hash `v`: the suffix of the ring beginning at the first
     section whose hash is `≥ v`, the whole ring when there is none (`i == numSections → i = 0`) -/
